@@ -120,23 +120,23 @@ Definition core_consistent (qs : list qpath) : Prop :=
     ans (base p) = Unsat -> qcore p = Some c -> c <> [] ->
     (forall x, In x c -> In x (qids q)) -> ans (base q) = Unsat.
 
-Record cinv (qs : list qpath) (c : cst) : Prop := mkcinv {
+Record cinv (qs : list qpath) (cache : bool) (c : cst) : Prop := mkcinv {
   ci_todo : forall q, In q (ctodo c) -> In q qs;
   ci_jobs : forall b, In b (cjobs c) -> In (jq b) qs /\ potential (base (jq b)) = true;
   ci_cores : forall c0, In c0 (ccores c) ->
-      c0 <> [] /\ exists p, In p qs /\ potential (base p) = true /\ ans (base p) = Unsat /\ qcore p = Some c0;
+      cache = true /\ c0 <> [] /\ exists p, In p qs /\ potential (base p) = true /\ ans (base p) = Unsat /\ qcore p = Some c0;
   ci_hit : forall b, In b (cjobs c) -> jstage b = Started true -> ans (base (jq b)) = Unsat
 }.
 
-Lemma cinv_init : forall qs, cinv qs (cinit qs).
-Proof. intros qs. constructor; cbn; try (intros; contradiction). intros q H; exact H. Qed.
+Lemma cinv_init : forall qs cache, cinv qs cache (cinit qs).
+Proof. intros qs cache. constructor; cbn; try (intros; contradiction). intros q H; exact H. Qed.
 
-Lemma cinv_set_mst : forall qs c m, cinv qs c -> cinv qs (cset_mst c m).
-Proof. intros qs c m []. constructor; cbn; assumption. Qed.
+Lemma cinv_set_mst : forall qs cache c m, cinv qs cache c -> cinv qs cache (cset_mst c m).
+Proof. intros qs cache c m []. constructor; cbn; assumption. Qed.
 
-Lemma cinv_step_main : forall qs c, cinv qs c -> cinv qs (cstep_main c).
+Lemma cinv_step_main : forall qs cache c, cinv qs cache c -> cinv qs cache (cstep_main c).
 Proof.
-  intros qs c I. unfold cstep_main.
+  intros qs cache c I. unfold cstep_main.
   destruct (cmst c); try assumption.
   - destruct (ctodo c); [apply cinv_set_mst; assumption |]. destruct (cflag c); apply cinv_set_mst; assumption.
   - destruct (ctodo c) as [| q rest] eqn:T; [apply cinv_set_mst; assumption |].
@@ -153,18 +153,18 @@ Proof.
     + constructor; cbn; assumption.
 Qed.
 
-Lemma cinv_step_main_raise : forall qs c, cinv qs c -> cinv qs (cstep_main_raise c).
+Lemma cinv_step_main_raise : forall qs cache c, cinv qs cache c -> cinv qs cache (cstep_main_raise c).
 Proof.
-  intros qs c I. unfold cstep_main_raise.
+  intros qs cache c I. unfold cstep_main_raise.
   destruct (cmst c); try (apply cinv_step_main; assumption).
   destruct (ctodo c) as [| q rest]; [apply cinv_step_main; assumption |].
   destruct (kind_action (kind (base q))); try (apply cinv_step_main; assumption).
   destruct (is_err (ans (base q))); [apply cinv_set_mst; assumption | apply cinv_step_main; assumption].
 Qed.
 
-Lemma cinv_step_start : forall qs j c, core_consistent qs -> cinv qs c -> cinv qs (cstep_start j c).
+Lemma cinv_step_start : forall qs cache j c, (cache = true -> core_consistent qs) -> cinv qs cache c -> cinv qs cache (cstep_start j c).
 Proof.
-  intros qs j c H I. unfold cstep_start.
+  intros qs cache j c H I. unfold cstep_start.
   destruct (cfind j (cjobs c)) as [[[pre b] post] |] eqn:F; [| assumption].
   destruct (jstage b) eqn:S; [| assumption].
   destruct (cfind_spec _ _ _ _ _ F) as [E _].
@@ -180,13 +180,13 @@ Proof.
   - intros x Hx Sx. apply in_app_or in Hx. destruct Hx as [Hx | [<- | Hx]].
     + apply I4; [apply Hsub, in_or_app; left |]; assumption.
     + cbn [jq jstage] in *. injection Sx as Hit. apply check_hit in Hit. destruct Hit as (c0 & Hc0 & Hsubset).
-      destruct (I3 c0 Hc0) as (Hne & p & Hp & Ppot & Pans & Pcore).
+      destruct (I3 c0 Hc0) as (Hcache & Hne & p & Hp & Ppot & Pans & Pcore).
       destruct (I2 b Hb) as [Hbq Bpot].
-      exact (H p (jq b) c0 Hp Hbq Ppot Bpot Pans Pcore Hne Hsubset).
+      exact (H Hcache p (jq b) c0 Hp Hbq Ppot Bpot Pans Pcore Hne Hsubset).
     + apply I4; [apply Hsub, in_or_app; right |]; assumption.
 Qed.
 
-Lemma cinv_step_cb : forall qs cache ee j c, cinv qs c -> cinv qs (cstep_cb cache ee j c).
+Lemma cinv_step_cb : forall qs cache ee j c, cinv qs cache c -> cinv qs cache (cstep_cb cache ee j c).
 Proof.
   intros qs cache ee j c I. unfold cstep_cb.
   destruct (cfind j (cjobs c)) as [[[pre b] post] |] eqn:F; [| assumption].
@@ -206,13 +206,13 @@ Proof.
     destruct (cflag c) eqn:Fl; [discriminate C |]. rewrite get_output_live in U. rewrite C in Hc0.
     apply in_app_or in Hc0. destruct Hc0 as [Hc0 | [<- | []]]; [apply I3; assumption |].
     unfold job_result in U, C. destruct hit; [discriminate C |]. cbn [fst snd] in U, C.
-    unfold reply_core in C. rewrite U in C. apply core_of_reply_some in C. destruct C as [_ C].
-    split; [discriminate |]. exists (jq b). destruct (I2 b Hb) as [Hq Hp].
+    unfold reply_core in C. rewrite U in C. apply core_of_reply_some in C. destruct C as [Hcache C].
+    split; [assumption |]. split; [discriminate |]. exists (jq b). destruct (I2 b Hb) as [Hq Hp].
     repeat split; try assumption. destruct (ans (base (jq b))); try discriminate U. reflexivity.
   - intros x Hx. apply I4, Hsub. assumption.
 Qed.
 
-Lemma cinv_step : forall qs cache ee c e, core_consistent qs -> cinv qs c -> cinv qs (cstep cache ee c e).
+Lemma cinv_step : forall qs cache ee c e, (cache = true -> core_consistent qs) -> cinv qs cache c -> cinv qs cache (cstep cache ee c e).
 Proof.
   intros qs cache ee c e H I. destruct e; cbn [cstep].
   - apply cinv_step_main; assumption.
@@ -231,7 +231,7 @@ Proof.
   destruct (cfind_spec _ _ _ _ _ F) as [E _]. unfold proj. cbn. rewrite E, !map_app. reflexivity.
 Qed.
 
-Lemma proj_step_cb : forall qs cache ee j c, cinv qs c ->
+Lemma proj_step_cb : forall qs cache ee j c, cinv qs cache c ->
   proj (cstep_cb cache ee j c) = fold_left (step ee) (erase c (CCb j)) (proj c).
 Proof.
   intros qs cache ee j c I. unfold cstep_cb, erase.
@@ -242,11 +242,11 @@ Proof.
   destruct (cfind_spec _ _ _ _ _ F) as [E _].
   assert (Hb : In b (cjobs c)) by (rewrite E; apply in_or_app; right; left; reflexivity).
   assert (A : fst (job_result cache (jq b) hit) = ans (base (jq b))).
-  { unfold job_result. destruct hit; [| reflexivity]. cbn [fst]. symmetry. apply (ci_hit _ _ I b Hb S). }
+  { unfold job_result. destruct hit; [| reflexivity]. cbn [fst]. symmetry. apply (ci_hit _ _ _ I b Hb S). }
   rewrite A. reflexivity.
 Qed.
 
-Lemma step_sim : forall qs cache ee c e, cinv qs c ->
+Lemma step_sim : forall qs cache ee c e, cinv qs cache c ->
   proj (cstep cache ee c e) = fold_left (step ee) (erase c e) (proj c).
 Proof.
   intros qs cache ee c e I. destruct e; cbn [cstep].
@@ -256,7 +256,7 @@ Proof.
   - eapply proj_step_cb; eassumption.
 Qed.
 
-Lemma run_sim : forall qs cache ee, core_consistent qs -> forall sched c, cinv qs c ->
+Lemma run_sim : forall qs cache ee, (cache = true -> core_consistent qs) -> forall sched c, cinv qs cache c ->
   proj (fold_left (cstep cache ee) sched c) = fold_left (step ee) (erase_all cache ee c sched) (proj c).
 Proof.
   intros qs cache ee H. induction sched as [| e r IH]; intros c I; cbn [fold_left erase_all]; [reflexivity |].
@@ -282,22 +282,23 @@ Proof.
   destruct (cmst c); try reflexivity. destruct (cjobs c); reflexivity.
 Qed.
 
-(* main result: under a core-consistent solver every run with the cache is, observably, a run of
-   the plain system on the same paths *)
+(* main result: every run of the system with the shared core list is, observably, a run of the plain
+   system on the same paths -- unconditionally without --cache-solver, and under a core-consistent
+   solver with it *)
 Lemma cache_refines : forall cache ee qs sched,
-  core_consistent qs ->
+  (cache = true -> core_consistent qs) ->
   exists sched',
     (In EvMainRaise sched' -> In CMainRaise sched) /\
     cresult (crun cache ee qs sched) = result (run ee (map base qs) sched').
 Proof.
   intros cache ee qs sched H. exists (erase_all cache ee (cinit qs) sched). split.
   - apply erase_all_raise.
-  - rewrite cresult_proj. unfold crun, run. rewrite (run_sim qs cache ee H sched (cinit qs) (cinv_init qs)).
+  - rewrite cresult_proj. unfold crun, run. rewrite (run_sim qs cache ee H sched (cinit qs) (cinv_init qs cache)).
     reflexivity.
 Qed.
 
 Lemma cache_schedule_any : forall cache ee qs sched r,
-  core_consistent qs ->
+  (cache = true -> core_consistent qs) ->
   cresult (crun cache ee qs sched) = Some r ->
   r = model_verdict (map base qs) \/
   (ee = true /\ spec_verdict (map base qs) = LFail /\ r = (raised_label, raised_exitcode) /\
@@ -309,7 +310,7 @@ Proof.
 Qed.
 
 Lemma cache_schedule_no_early_exit : forall cache qs sched r,
-  core_consistent qs -> ~ In CMainRaise sched ->
+  (cache = true -> core_consistent qs) -> ~ In CMainRaise sched ->
   cresult (crun cache false qs sched) = Some r ->
   r = model_verdict (map base qs) /\ fst r = spec_verdict (map base qs).
 Proof.
@@ -318,13 +319,20 @@ Proof.
 Qed.
 
 Lemma cache_failsafe : forall cache ee qs sched r,
-  core_consistent qs ->
+  (cache = true -> core_consistent qs) ->
   cresult (crun cache ee qs sched) = Some r ->
   (fst r = LPass <-> spec_verdict (map base qs) = LPass) /\ (snd r = EX_PASS <-> spec_verdict (map base qs) = LPass).
 Proof.
   intros cache ee qs sched r H R. destruct (cache_refines cache ee qs sched H) as (sched' & _ & E).
   rewrite E in R. exact (schedule_failsafe _ _ _ _ R).
 Qed.
+
+(* without --cache-solver: no hypothesis on the solver's cores at all *)
+Lemma nocache_refines : forall ee qs sched,
+  exists sched',
+    (In EvMainRaise sched' -> In CMainRaise sched) /\
+    cresult (crun false ee qs sched) = result (run ee (map base qs) sched').
+Proof. intros. apply cache_refines. intros X. discriminate X. Qed.
 
 (* without --cache-solver no core is ever recorded and no query is answered from the cache *)
 Lemma nocache_no_cores : forall ee qs sched,
